@@ -74,6 +74,25 @@ class Ctx:
     def note(self, text):
         self.notes.append(text)
 
+    def borrow(self, rule_fn, rename):
+        """run a rule of another property inside this check and re-label what it records
+        (rename: {'C10.FINALLY': 'C19.RELEASE', ...}); used where one property's clause IS another property's rule"""
+        sub = Ctx(self.prop, self.p, self.tier)
+        rule_fn(sub)
+        self.paths_enumerated += sub.paths_enumerated
+        self.floor_errors += sub.floor_errors
+        for r, d in sub.rules.items():
+            if r in rename:
+                self.rules[rename[r]] = dict(d)
+        for o in sub.obligations:
+            if o["rule"] in rename:
+                self.obligations.append(dict(o, rule=rename[o["rule"]]))
+        for f in sub.findings:
+            if f.rule in rename:
+                g = Finding(self.prop, rename[f.rule], f.module, f.line, f.function, f.construct, f.message)
+                if g.key() not in {x.key() for x in self.findings}:
+                    self.findings.append(g)
+
 
 def load_known():
     if not KNOWN_FILE.exists():
